@@ -236,6 +236,9 @@ func Run(c Cfg, choose Chooser, maxLabels int) Result {
 	}
 	for step := 0; step < maxLabels; step++ {
 		var opts []string
+		iterStart := time.Now()
+		plannedSleep := time.Duration(0)
+		armedHere := false
 		// the deadlines pending when the label is chosen (pt0 belongs to attempt ptIdx0)
 		var pt0 time.Duration
 		hasPT0, ptIdx0 := false, -1
@@ -339,6 +342,9 @@ func Run(c Cfg, choose Chooser, maxLabels int) Result {
 					}
 				}
 			}
+			if r := d + timerMargin - ex.Elapsed(); r > 0 {
+				plannedSleep = r
+			}
 			ex.SleepUntil(d + timerMargin)
 		case lb == "DR":
 			ex.DownstreamReset()
@@ -360,12 +366,9 @@ func Run(c Cfg, choose Chooser, maxLabels int) Result {
 				rt = map[string]string{"rt": "1"}
 			}
 			streamed[k] = true
+			armedHere = true
 			ex.ArmHold()
 			a.RespondStreaming(code, nil, rb, rt)
-			ex.WaitQuiescentFor(settleWin)
-			if !ex.Held() { // the head was not forwarded (dropped, or swallowed by a retry): nothing waits
-				ex.Release()
-			}
 		case strings.HasPrefix(lb, "E"):
 			var k int
 			fmt.Sscan(lb[1:], &k)
@@ -401,6 +404,16 @@ func Run(c Cfg, choose Chooser, maxLabels int) Result {
 		}
 		if ex != nil {
 			ex.WaitQuiescentFor(settleWin)
+			if armedHere && !ex.Held() { // the head was not forwarded (dropped, or swallowed by a retry): nothing waits
+				ex.Release()
+			}
+			// the timing grid assumes that an action and its settle end well within actBudget: a scheduler stall (loaded
+			// machine) that stretches one label beyond it may have let a timer fire at a point the recorded schedule does
+			// not show — such a run is discarded
+			if time.Since(iterStart)-plannedSleep > actBudget+settleWin {
+				res.Skewed = true
+				break
+			}
 			// a deadline that is not consumed must still be ahead, otherwise a timer may have fired inside the settle
 			now := ex.Elapsed()
 			pt, gt, hasPT, hasGT := deadlines()
